@@ -133,7 +133,7 @@ impl Check for C06 {
     fn cases(&self, tier: Tier) -> u64 {
         match tier {
             Tier::Quick => 12_000,
-            Tier::Thorough => 100_000,
+            Tier::Thorough => 250_000,
         }
     }
     fn langs(&self) -> Vec<&'static str> {
